@@ -689,7 +689,7 @@ func (in *Interp) takeSample() {
 		s.Model[nm] = fmt.Sprintf("0x%x", vals[i])
 	}
 	for i, w := range p.witnesses {
-		if strings.HasPrefix(w.name, "fv") {
+		if strings.HasSuffix(w.name, ".addr") || strings.HasSuffix(w.name, ".code") {
 			continue
 		}
 		s.Expect[w.name] = fmt.Sprintf("0x%x", vals[nN+i])
